@@ -23,7 +23,10 @@
 //     the input only), which is finer than the "other" class of the design;
 //   - quick tier enumerates every 23rd (requests) / 11th (responses) grammar message of the full
 //     product in mixed-radix order instead of "about 600 streams"; thorough is the full product;
-//   - thorough adds all triple cuts for streams <= 56 B and double cuts for the mutants.
+//   - thorough: the full product with single cuts; all double cuts for every 5th message of the
+//     product (and all triple cuts for those <= 48 B), all ordered triples of 5 base messages as
+//     pipelines, all double cuts for the mutants of 5 of the 14 base messages (the complete
+//     product x all double cuts did not fit into 17 minutes on a shared machine).
 package main
 
 import (
@@ -42,7 +45,7 @@ var policies = []track.Policy{track.Exact, track.Pooled, track.Stale}
 
 type level struct {
 	double    bool // all double cuts (<=160 B) / structural double cuts
-	triple    bool // all triple cuts for streams <= 56 B
+	triple    bool // all triple cuts for streams <= 48 B
 	policies3 bool // single cuts and byte-at-a-time under all three capacity policies
 	trackCuts bool // single cuts under the pooled policy use verif/track (else the lite allocator)
 }
@@ -158,7 +161,7 @@ func (e *evaluator) stream(m *httpgen.Msg, client bool, lv level) {
 				e.p.Count("streams_with_structural_double_cuts", 1)
 			}
 		}
-		if lv.triple && n <= 56 {
+		if lv.triple && n <= 48 {
 			httpgen.TripleCutsAll(n, func(cuts []int) {
 				c.Cuts = cuts
 				e.compare(refs[track.Pooled], c, "triple-cut", m.Desc)
@@ -198,12 +201,27 @@ func run(tier string, sh *vkit.Shard, p *vkit.Part) {
 	if thorough {
 		strideReq, strideRes = 1, 1
 	}
-	lvA := level{double: true, triple: thorough, policies3: true, trackCuts: true}
+	// quick: every sampled message gets all double cuts. thorough: every message of the full
+	// product gets one piece / all single cuts x 3 policies / byte-at-a-time / fixed pieces, every
+	// 5th (in product order) additionally all double cuts, and those <= 48 B all triple cuts.
+	lvA := level{double: true, policies3: true, trackCuts: true}
+	nA := 0
+	lvFor := func() level {
+		nA++
+		lv := lvA
+		if thorough {
+			lv.double = nA%5 == 0
+			lv.triple = lv.double
+		}
+		return lv
+	}
 	httpgen.G6Requests(strideReq, func(m *httpgen.Msg) {
-		item(func() { e.stream(m, false, lvA); p.Count("grammar_requests", 1); sample(m) })
+		lv := lvFor()
+		item(func() { e.stream(m, false, lv); p.Count("grammar_requests", 1); sample(m) })
 	})
 	httpgen.G6Responses(strideRes, func(m *httpgen.Msg) {
-		item(func() { e.stream(m, true, lvA); p.Count("grammar_responses", 1); sample(m) })
+		lv := lvFor()
+		item(func() { e.stream(m, true, lv); p.Count("grammar_responses", 1); sample(m) })
 	})
 
 	// B. pipelines: all ordered pairs (thorough: also all ordered triples of the first five)
@@ -254,7 +272,8 @@ func run(tier string, sh *vkit.Shard, p *vkit.Part) {
 
 	// C. malformed neighbours: the single-mutation neighbourhood of the base messages; one work
 	// item per (base, position)
-	lvC := level{double: thorough, policies3: false}
+	lvC := level{policies3: false}
+	richBases := map[string]bool{"post-cl3-ows": true, "post-chunk1+2-ext": true, "post-chunk3+1-ext-trailer2": true, "200-cl3-ows": true, "404-chunk3+1-trailer2": true}
 	for _, set := range []struct {
 		ms     []*httpgen.Msg
 		client bool
@@ -280,7 +299,9 @@ func run(tier string, sh *vkit.Shard, p *vkit.Part) {
 				item(func() {
 					for _, mu := range ms {
 						m := &httpgen.Msg{B: mu.b, Marks: base.Marks, Desc: base.Desc + " " + mu.desc}
-						e.stream(m, set.client, lvC)
+						lv := lvC
+						lv.double = thorough && richBases[base.Desc]
+						e.stream(m, set.client, lv)
 						p.Count("mutant_streams", 1)
 					}
 				})
@@ -319,7 +340,7 @@ func replay(_ string, raw json.RawMessage) string {
 func main() {
 	vkit.Main(&vkit.Spec{
 		Property: "C06", Level: "model_checking",
-		Rule: "one case = (byte stream, segmentation, processor, allocator capacity policy) executed on the real nbhttp.Parser and compared with the one-piece feed of the same stream; streams: the RFC 7230 grammar of DESIGN 4/C06 in both directions (quick: every 23rd request / 11th response of the full product in mixed-radix order; thorough: all 23712 + 11856), all ordered pairs of 8 base requests / 6 base responses as pipelines, 8 messages with 1-1.5 KiB bodies / header values (beyond the pooled buffer capacity), and every distinct single-byte mutant (16 replacement bytes, delete, duplicate, at every position) of those 14 base messages; segmentations: one piece, every single cut, every double cut (streams <= 160 B; structural cut set beyond), byte-at-a-time, pieces of 2/3/7 bytes (thorough: every triple cut for streams <= 56 B, double cuts for mutants); a case is non-trivial when some feed ended with a non-empty carry-over buffer (the cut fell inside a token/body, measured through the hook accessor)",
+		Rule: "one case = (byte stream, segmentation, processor, allocator capacity policy) executed on the real nbhttp.Parser and compared with the one-piece feed of the same stream; streams: the RFC 7230 grammar of DESIGN 4/C06 in both directions (quick: every 23rd request / 11th response of the full product in mixed-radix order; thorough: all 23712 + 11856), all ordered pairs of 8 base requests / 6 base responses as pipelines, 8 messages with 1-1.5 KiB bodies / header values (beyond the pooled buffer capacity), and every distinct single-byte mutant (16 replacement bytes, delete, duplicate, at every position) of those 14 base messages; segmentations: one piece, every single cut, every double cut (streams <= 160 B; structural cut set beyond), byte-at-a-time, pieces of 2/3/7 bytes (thorough: full grammar product with single cuts, double cuts for every 5th message, triple cuts for those <= 48 B, double cuts for the mutants of 5 bases); a case is non-trivial when some feed ended with a non-empty carry-over buffer (the cut fell inside a token/body, measured through the hook accessor)",
 		Assumptions: []string{
 			"events compared: every Processor callback with its arguments (recording processor) or the request/response dump made by the handler plus the first line of every write and Close calls on the connection (real processors); verdict compared: nbhttp sentinel identity, else the error text",
 			"after Parse returns an error the harness calls CloseAndClean, as Engine.DataHandler's close does, and stops feeding; events before the error must agree too",
